@@ -38,7 +38,7 @@ REASONS = [
      "(C19.3)", None),
     (r"^blocker::Blocker::check_parameterised$", r"^index\|", "local",
      "slices of the redirect option at idx / idx+1 where idx = memrchr(b':') (1-byte ASCII hit on the same "
-     "string), or full-range slices", None),
+     "string), or full-range slices", None, [r"memchr::memrchr\(58, "]),
     (r"^blocker::Blocker::apply_removeparam$", r"^index\|", "local",
      "indices come from memchr(b'?') / memchr(b'#') on the same string (1-byte ASCII hits), +1, or len(); the `?` "
      "is searched in url[..fragment_start] (fragment_start = first `#` or len), so i < fragment_start and "
@@ -75,11 +75,12 @@ REASONS = [
     (r"^cosmetic_filter_cache::HostnameRuleDb::store_rule$", r"^unwrap\|", "total",
      "serde_json::to_string of a derive-only struct of Strings / enums cannot fail", None),
     (r"^cosmetic_filter_cache::key_from_selector$", r"^unwrap\|.*regex::Captures::get\(", "total",
-     "capture.get(0) (the whole match) always exists; capture.get(1): RE_ESCAPE_SEQUENCE = \\\\([0-9A-Fa-f]+ |.) "
-     "has exactly one, non-optional group (group count validated with regex-syntax)", None),
+     "capture.get(0) (the whole match) always exists; capture.get(1): RE_ESCAPE_SEQUENCE = \\\\([0-9A-Fa-f]{1,6} ?|.) "
+     "has exactly one, non-optional group (group count validated with regex-syntax; the literal itself is pinned by "
+     "C17.5)", None, []),
     (r"^cosmetic_filter_cache::key_from_selector$", r"^(index|assert)\|", "local",
-     "offsets are regex match boundaries on the same string, taken in increasing order; capture.len()-1 strips "
-     "the 1-byte trailing space of the hex alternative, which is the only alternative longer than one char", None),
+     "offsets are regex match boundaries on the same string, taken in increasing order (beginning = end of the "
+     "previous escape <= start of the next)", None, []),
     (r"key_from_selector::RE_\w+::\{closure#0\}$", r"^unwrap\|", "total",
      "constant regex literal (validated with regex-syntax on every run)", None),
     # ------------------------------------------------------------------ data_format
@@ -119,7 +120,7 @@ REASONS = [
      ["filters::cosmetic::get_entity_hashes_from_labels"]),
     (r"^filters::cosmetic::get_hashes_from_labels$", r".", "input-shape",
      "dot_ptr starts at start_of_domain <= len and continues with memrchr(b'.') hits; end is len",
-     ["filters::cosmetic::get_entity_hashes_from_labels", "filters::cosmetic::get_hostname_hashes_from_labels"]),
+     ["filters::cosmetic::get_entity_hashes_from_labels", "filters::cosmetic::get_hostname_hashes_from_labels"], []),
     (r"^filters::cosmetic::get_hostname_hashes_from_labels$", r".", "input-shape",
      "domain is a suffix slice of hostname, so hostname.len() >= domain.len()",
      ["filters::cosmetic::hostname_domain_hashes", "cosmetic_filter_cache::hostname_domain_hashes",
